@@ -96,3 +96,16 @@ Proof.
   exact (newton_sysjac_affine_full NCR ACR_FieldLaws ACR_PivLaws M c0 tl dl W Hsq Hne NCR_lt0
            (NCR_le0 tl Ht) Hinv n x0 L0 Hn).
 Qed.
+
+(* ---- non-vacuity witness at C: [[1, i], [0, 1]] with inverse [[1, -i], [0, 1]] ---- *)
+Definition M2c : matrix ACR :=
+  @mkM ACR [mkC (A:=AR) 1 0; mkC (A:=AR) 0 1; mkC (A:=AR) 0 0; mkC (A:=AR) 1 0] 2 2.
+Definition N2c : matrix ACR :=
+  @mkM ACR [mkC (A:=AR) 1 0; mkC (A:=AR) 0 (-1); mkC (A:=AR) 0 0; mkC (A:=AR) 1 0] 2 2.
+
+Lemma M2c_left_inverse : left_inverse (rows M2c) (ent N2c) (ent M2c).
+Proof.
+  intros i j Hi Hj. change (rows M2c) with 2%nat in *.
+  destruct i as [|[|i]]; try lia; destruct j as [|[|j]]; try lia;
+    cbn; unfold ent; cbn; apply cplx_eq; cbn; ring.
+Qed.
